@@ -422,6 +422,23 @@ func apiFacts(repo, out string) {
 				txt := nodeText(q.Fset, call)
 				if strings.HasPrefix(txt, "router.Use(") || strings.HasPrefix(txt, "router.Mount(\"/v1\"") || strings.HasPrefix(txt, "kproapi.HandlerFromMux(") {
 					setup = append(setup, fd.Name.Name+":"+txt)
+					return true
+				}
+				// every other registration on the router, and every other way to obtain the generated
+				// handlers: receiver.method(first argument[, second argument of a Mount])
+				sel, ok := call.Fun.(*ast.SelectorExpr)
+				if !ok {
+					return true
+				}
+				recv := nodeText(q.Fset, sel.X)
+				if recv == "router" && len(call.Args) > 0 {
+					short := "router." + sel.Sel.Name + "(" + nodeText(q.Fset, call.Args[0])
+					if sel.Sel.Name == "Mount" && len(call.Args) > 1 {
+						short += "," + nodeText(q.Fset, call.Args[1])
+					}
+					setup = append(setup, fd.Name.Name+":"+short+")")
+				} else if recv == "kproapi" && strings.HasPrefix(sel.Sel.Name, "Handler") {
+					setup = append(setup, fd.Name.Name+":"+txt)
 				}
 				return true
 			})
